@@ -363,6 +363,13 @@ func init() {
 		if e.fsModelOn {
 			return e.fsModelRead(path)
 		}
+		for _, name := range e.fsFileOrder {
+			reg := e.strConst(name)
+			if len(reg.b) == len(path.b) && e.branch(e.strEq(reg, path)) {
+				e.fsRecord("readfile", path, Str{}, true)
+				return Tuple{Slice{append([]Value(nil), e.fsFiles[name].a...)}, Iface{}}
+			}
+		}
 		ok, err := e.fsFork3("readfile", "ErrNotExist")
 		e.fsRecord("readfile", path, Str{}, ok)
 		if !ok {
@@ -425,6 +432,7 @@ func init() {
 	})
 	reg(rt+"NativeExtraFiles", func(fr *frame, args []Value) Value { return fr.e.tt.False })
 	reg(rt+"NativeAtomicDest", func(fr *frame, args []Value) Value { return nil })
+	reg(rt+"NativeAtomicTmpDir", func(fr *frame, args []Value) Value { return nil })
 	reg(rt+"NativeEnd", func(fr *frame, args []Value) Value { return nil })
 	reg(rt+"NativeSubRoot", func(fr *frame, args []Value) Value { return nil })
 	reg(rt+"FsStatFromWalk", func(fr *frame, args []Value) Value {
@@ -491,6 +499,21 @@ type walkEntry struct {
 
 func init() {
 	rt := rtPkgPath + "."
+	reg(rt+"FsFile", func(fr *frame, args []Value) Value {
+		name, ok := concStr(args[0].(Str))
+		if !ok {
+			unsupported("rt.FsFile with a symbolic path")
+		}
+		if fr.e.fsFiles == nil {
+			fr.e.fsFiles = map[string]Slice{}
+		}
+		src := args[1].(Slice)
+		if _, dup := fr.e.fsFiles[name]; !dup {
+			fr.e.fsFileOrder = append(fr.e.fsFileOrder, name)
+		}
+		fr.e.fsFiles[name] = Slice{append([]Value(nil), src.a...)}
+		return nil
+	})
 	reg(rt+"WalkEntry", func(fr *frame, args []Value) Value {
 		fr.e.walkList = append(fr.e.walkList, walkEntry{args[0].(Str), args[1].(*Term)})
 		return nil
